@@ -5,6 +5,7 @@ import (
 	"errors"
 	"fmt"
 	"io"
+	"net/http"
 	"net/url"
 
 	"github.com/regclient/regclient/internal/httplink"
@@ -140,6 +141,12 @@ func (reg *Reg) referrerListByAPIPage(ctx context.Context, r ref.Ref, config sch
 		req.DirectURL = link
 	}
 	resp, err := reg.reghttp.Do(ctx, req)
+	if err != nil && req.IgnoreErr && referrerErrTransient(resp, err) {
+		// a rate limit, server error, or dropped connection says nothing about the API being supported,
+		// repeat the request with the normal retry and backoff handling before falling back to the tag
+		req.IgnoreErr = false
+		resp, err = reg.reghttp.Do(ctx, req)
+	}
 	if err != nil {
 		return rl, nil, fmt.Errorf("failed to get referrers %s: %w", r.CommonName(), err)
 	}
@@ -192,6 +199,21 @@ func (reg *Reg) referrerListByAPIPage(ctx context.Context, r ref.Ref, config sch
 	}
 
 	return rl, link, nil
+}
+
+// referrerErrTransient reports whether a failed request is worth repeating (as opposed to an unsupported API).
+func referrerErrTransient(resp *reghttp.Resp, err error) bool {
+	if errors.Is(err, errs.ErrNotFound) || errors.Is(err, context.Canceled) || errors.Is(err, context.DeadlineExceeded) {
+		return false
+	}
+	if resp == nil || resp.HTTPResponse() == nil {
+		return true // no response received
+	}
+	switch resp.HTTPResponse().StatusCode {
+	case http.StatusTooManyRequests, http.StatusRequestTimeout, http.StatusInternalServerError, http.StatusBadGateway, http.StatusGatewayTimeout:
+		return true
+	}
+	return false
 }
 
 func (reg *Reg) referrerListByTag(ctx context.Context, r ref.Ref) (referrer.ReferrerList, error) {
